@@ -53,3 +53,19 @@ Example types_nonvacuous :
           (lit "A", mk TsTz (Some 0) (Some 9) None)] /\
   describe [(lit "S", DOther 1)] = None.
 Proof. vm_compute. split; reflexivity. Qed.
+
+(* ------------------------------------------------------------------ information_schema.columns vs the result metadata *)
+Theorem info_name_agrees_partial_l : forall t m, sf_meta t = Some m -> column_dom t = true -> info_name t = Some (sf_name (kind m)).
+Proof. intros t m H D. destruct t; try discriminate; cbn in H; injection H as <-; vm_compute; reflexivity. Qed.
+
+Theorem info_precision_agrees_partial_l : forall t m, sf_meta t = Some m -> column_dom t = true -> kind m = Fixed ->
+  info_prec t = precision m /\ info_scale t = scale m.
+Proof. intros t m H D K. destruct t; try discriminate; cbn in H; injection H as <-; try discriminate; vm_compute; split; reflexivity. Qed.
+
+Theorem info_float_has_no_precision_l : info_prec DDouble = None /\ info_scale DDouble = None.
+Proof. vm_compute. split; reflexivity. Qed.
+
+(* a type with no arm in the view keeps DuckDB's own name: the statement is false outside column_dom (no Snowflake statement
+   produces a TIMESTAMP_NS column) *)
+Lemma info_timestamp_ns_refuted_l : exists t m, sf_meta t = Some m /\ info_name t <> Some (sf_name (kind m)).
+Proof. exists DTimestampNs, (mk TsNtz (Some 0) (Some 9) None). split; [reflexivity|]. vm_compute. discriminate. Qed.
